@@ -202,6 +202,10 @@ partial def parseCE (leaves : List LeafInfo) (s : List Char) : Option (CE × Lis
         | none =>
           match parseCE leaves rest with
           | some (l, r1) =>
+            -- a negative constant in parentheses: "(-5)"
+            match l, r1 with
+            | .ilit n, ')' :: r2 => if n < 0 then some (.ilit n, r2) else none
+            | _, _ =>
             opTokens.findSome? fun o =>
               match dropPrefix? r1 o with
               | some r2 =>
@@ -291,7 +295,7 @@ structure FormFacts where
   kind : PK
   width : Nat
   mustAccept : Bool
-  excluded : Bool      -- inside a defect exclusion (A, N, B, E)
+  excluded : Bool      -- inside a defect exclusion (A, B, E)
 
 def updExprs : Upd → List Expr
   | .plain e => [e]
@@ -330,7 +334,7 @@ def factsOf : FormE → FormFacts
   | .cond t a b =>
     { kind := condKind a b, width := condWidth a b,
       mustAccept := t.mustAccept && a.mustAccept && b.mustAccept,
-      excluded := !(t.noFloatMod && t.noFloatNot && a.noFloatMod && a.noFloatNot && b.noFloatMod && b.noFloatNot)
+      excluded := !(t.noFloatMod && a.noFloatMod && b.noFloatMod)
                   || condIntegral a b }
   | .agg seed u =>
     let (k, w) := aggKind seed u
@@ -338,7 +342,7 @@ def factsOf : FormE → FormFacts
     { kind := k, width := w,
       mustAccept := seed.mustAccept && es.all (·.mustAccept) && seed.pyKind true != .bool,
       excluded := !(seed.noDefect && es.all (fun e => (e.retype .int).noFloatMod && (e.retype .double).noFloatMod
-                        && (e.retype .int).noFloatNot && (e.retype .double).noFloatNot && e.noNegBool))
+                        && e.noNegBool))
                   || (match u with
                       | .cond _ a b => condIntegral (a.retype (if k = .float then .double else .int)) (b.retype (if k = .float then .double else .int))
                                        || (k != .float)
